@@ -422,6 +422,22 @@ fn plan_inner(id: &str, tier: &str, seed: u64, round: u64) -> Plan {
                             v.groups.push(vec![VAttr::Disabled]);
                         }
                     }
+                    // enums whose spellings all start alike (`AppsStart`, `AppsStop`, .. named after their identifiers,
+                    // case-sensitive): a rejected input sharing that start must still reach the error function whole
+                    if i % 8 == 5 && i % 5 != 1 && s.macro_args.is_empty() {
+                        for v in s.variants.iter_mut() {
+                            v.ident = format!("Apps{}", v.ident.trim_start_matches("r#"));
+                            for g in v.groups.iter_mut() {
+                                g.retain(|a| !matches!(a, VAttr::Serialize(_) | VAttr::ToString(_) | VAttr::Ci(_)));
+                            }
+                            v.groups.retain(|g| !g.is_empty());
+                        }
+                        for g in s.groups.iter_mut() {
+                            g.retain(|a| !matches!(a, EAttr::Ci));
+                        }
+                        s.groups.retain(|g| !g.is_empty());
+                        gen::repair_spellings(&mut s);
+                    }
                     s
                 })
                 .collect();
